@@ -133,3 +133,14 @@ pub assume_specification[ i128::wrapping_neg ](x: i128) -> (r: i128)
 //@ assume std::mem::replace : std documentation: moves `src` into `dest`, returning the previous `dest` value
 pub assume_specification<T>[ core::mem::replace::<T> ](dest: &mut T, src: T) -> (r: T)
     ensures *final(dest) == src, r == *old(dest);
+
+//@ assume std::<[T]>::to_vec : std documentation: clones the elements of the slice into a new Vec
+pub assume_specification<T: Clone>[ <[T]>::to_vec ](s: &[T]) -> (r: Vec<T>)
+    ensures r@.len() == s@.len(), forall|i: int| 0 <= i < s@.len() ==> cloned::<T>(s@[i], #[trigger] r@[i]);
+
+//@ assume __vec_drain_front : rule R12i: std semantics of `v.drain(..d);` with the Drain iterator dropped at once: the first d elements are removed (panics if d > len)
+#[verifier::external_body]
+pub fn __vec_drain_front(v: &mut Vec<u64>, d: usize)
+    requires d <= old(v)@.len()
+    ensures final(v)@ == old(v)@.subrange(d as int, old(v)@.len() as int)
+{ unimplemented!() }
